@@ -2,6 +2,7 @@
 # usage: mut.sh <check-id> <file> <python-expr-old> <new>   (applies a textual replacement in /repo, runs tests + check, reverts)
 ID=$1; F=$2; OLD=$3; NEW=$4
 cd /repo || exit 9
+[ -z "$(git status --porcelain -- pycaption)" ] || { echo "REFUSING: /repo has uncommitted changes"; exit 9; }
 /venv/bin/python - "$F" "$OLD" "$NEW" <<'PY'
 import sys
 f,old,new=sys.argv[1:4]
